@@ -130,7 +130,11 @@ class World(EventDispatcher):
 
         # Manage replaced components
         if component_type in self._entities.get(entity, {}):
+            dead = entity in self._dead_entities
             self.remove_component(entity, component_type)
+            # A replacement does not revoke a pending deletion
+            if dead:
+                self._dead_entities.add(entity)
 
         if component_type not in self._components:
             self._components[component_type] = set()
@@ -284,6 +288,7 @@ class World(EventDispatcher):
 
         if immediate:
             components = self._entities.pop(entity)
+            self._dead_entities.discard(entity)
 
             for component_type in components:
                 self._components[component_type].discard(entity)
@@ -312,42 +317,11 @@ class World(EventDispatcher):
             self._dead_entities.add(entity)
 
     def _clear_dead_entities(self):
-        """Finalize deletion of any entities marked as dead.
-
-        In the interest of performance, this method duplicates code from
-        the :meth:`delete_entity` method. If that method is changed,
-        those changes should be duplicated here as well.
-        """
-        for entity in self._dead_entities:
-
-            for component_type, component in self._entities[entity].items():
-                self._components[component_type].discard(entity)
-
-                if not self._components[component_type]:
-                    del self._components[component_type]
-
-                # Event handling
-                if (hasattr(component, '__events__')
-                        and ON_REMOVE_EVENT_NAME in component.__events__):
-                    # Code replication
-                    # If dispatching is enabled, call on_remove directly
-                    # to gain performance. Otherwise an event is dispatched
-                    if (ON_REMOVE_EVENT_NAME in component.__events__
-                            and self._dispatch_enabled):
-                        getattr(component,
-                                component.__events__[ON_REMOVE_EVENT_NAME])(
-                                    entity, self)
-                    # on_add exists but dispatching is disabled
-                    elif not self._dispatch_enabled:
-                        self.dispatch(ON_SINGLE_DISPATCH_EVENT_NAME,
-                                      ON_REMOVE_EVENT_NAME,
-                                      component, entity, self)
-
-                    self.remove_handler(component)
-
-            del self._entities[entity]
-
-        self._dead_entities.clear()
+        """Finalize deletion of any entities marked as dead."""
+        # Entities are unmarked one at a time, so that a failure does
+        # not leave the world failing at every following frame
+        while self._dead_entities:
+            self.delete_entity(self._dead_entities.pop(), immediate=True)
 
     def remove_component(self, entity: Hashable, component_type: type[C]):
         """Remove a component from an entity, if the entity owns one.
@@ -379,6 +353,7 @@ class World(EventDispatcher):
                 # Free dict entry for an entity if empty
                 if not self._entities[entity]:
                     del self._entities[entity]
+                    self._dead_entities.discard(entity)
 
                 if removed is not None:
                     # No need to check if it is an handler, just check
